@@ -1,0 +1,71 @@
+//! Verification hooks (cargo feature `verif`, off by default).
+//!
+//! Scheduling points and read-only accessors used by the deterministic
+//! simulator in /verif. Nothing in here changes server behaviour: when no
+//! callback is installed `yield_point` is a single relaxed atomic load.
+
+use std::sync::atomic::{AtomicUsize, Ordering};
+
+/// Callback invoked at every scheduling point: (site, a, b).
+pub type YieldFn = fn(u32, u64, u64);
+
+static YIELD_FN: AtomicUsize = AtomicUsize::new(0);
+
+/// Scheduling point identifiers.
+pub mod site {
+    /// `StorageEngine::get_shard` (a = db, b = shard index): before every storage lock acquisition.
+    pub const SHARD: u32 = 1;
+    /// Expiry sweeper: keys of one shard collected, write lock not yet taken (a = db, b = number of keys).
+    pub const SWEEP_COLLECTED: u32 = 2;
+    /// Expiry sweeper: one full pass over all databases finished.
+    pub const SWEEP_PASS_DONE: u32 = 3;
+    /// RDB writer: before reading the next key (a = db).
+    pub const RDB_KEY: u32 = 4;
+    /// Server loop: bottom of one loop turn (a = did_work).
+    pub const TURN: u32 = 5;
+    /// Expiry sweeper: woke up, about to start a pass.
+    pub const SWEEP_WAKE: u32 = 6;
+}
+
+/// Install the scheduling callback (process-wide).
+pub fn set_yield(f: YieldFn) {
+    YIELD_FN.store(f as usize, Ordering::SeqCst);
+}
+
+/// A scheduling point. No-op unless a callback was installed.
+#[inline]
+pub fn yield_point(site: u32, a: u64, b: u64) {
+    let p = YIELD_FN.load(Ordering::Relaxed);
+    if p != 0 {
+        let f: YieldFn = unsafe { std::mem::transmute::<usize, YieldFn>(p) };
+        f(site, a, b);
+    }
+}
+
+/// Canonical, side-effect-free copy of one stored value.
+#[derive(Debug, Clone, PartialEq)]
+pub enum DumpValue {
+    String(Vec<u8>),
+    List(Vec<Vec<u8>>),
+    /// members, sorted
+    Set(Vec<Vec<u8>>),
+    /// (field, value), sorted by field
+    Hash(Vec<(Vec<u8>, Vec<u8>)>),
+    /// (member, score) in the skip list's own level-0 order
+    ZSet(Vec<(Vec<u8>, f64)>),
+    /// the skip list failed its structural invariant check
+    ZSetBroken(String),
+    /// entries in stored order: ((ms, seq), sorted fields); last generated id
+    Stream { entries: Vec<((u64, u64), Vec<(Vec<u8>, Vec<u8>)>)>, last_id: (u64, u64) },
+}
+
+/// One key of a database as stored (no lazy expiry applied).
+#[derive(Debug, Clone)]
+pub struct DumpEntry {
+    pub key: Vec<u8>,
+    pub value: DumpValue,
+    /// stored deadline relative to `Instant::now()` in nanoseconds (negative = already past)
+    pub ttl_ns: Option<i128>,
+    /// deadline recorded in the shard's expiry index, same encoding
+    pub index_ttl_ns: Option<i128>,
+}
